@@ -15,6 +15,7 @@ Decided statically (configurations KF = FIBER re-implementation + wrapper, KT = 
 Because each body is a closed term over (old value, arguments), agreement holds for all operand values and all
 single-threaded operation sequences.
 """
+import os
 import re
 
 from vlib import facts, symexec
@@ -488,8 +489,58 @@ def check_wrapper_method(ctx, fb, f, rule, impl_prefixes):
         ctx.report(rule, key, f.where, msg)
 
 
+WITNESSES = {
+    1: 'assignment from T (a = x)',
+    2: 'assignment from T on a volatile object',
+    3: 'pre/post increment and decrement on a volatile integral atomic',
+    4: 'pre/post increment and decrement on a volatile pointer atomic',
+    5: 'compare_exchange_weak / strong on a volatile object',
+    6: 'fetch_add / fetch_sub / += / -= on a volatile object',
+    7: 'fetch_and / or / xor and &= |= ^= on a volatile object',
+    8: 'load / store / exchange / conversion on a volatile object',
+    9: 'pre/post increment and decrement (integral and pointer)',
+    10: 'conversion to T',
+}
+
+
+def check_api_witnesses(ctx):
+    """R-APIFORM: positive compile witnesses (witness/atomic_api.cpp, one operation per WITNESS value, -fsyntax-only
+    with each backend's own flags).  An operation whose body is ill-formed cannot behave like std::atomic's — and is
+    invisible to R-OPTABLE, which only sees bodies that were instantiated."""
+    import subprocess
+    from concurrent.futures import ThreadPoolExecutor
+    rule = ctx.rule('R-APIFORM', 'every operation std::atomic<T> offers is well-formed on yaclib_std::atomic<T> in both '
+                    'fault backends (positive compile witnesses, one per operation)', minimum=20)
+    wit = os.path.join(facts.VERIF, 'witness', 'atomic_api.cpp')
+    jobs = [(cfg, k) for cfg in ('KT', 'KF') for k in [0] + sorted(WITNESSES)]
+
+    def compile_one(job):
+        cfg, k = job
+        cmd = ['clang++', '-fsyntax-only', '-Wno-everything', wit, '-DWITNESS=%d' % k] + facts.flags(cfg, ctx.root)
+        p = subprocess.run(cmd, stdout=subprocess.PIPE, stderr=subprocess.PIPE, text=True)
+        return cfg, k, p.returncode, p.stderr
+    with ThreadPoolExecutor(max_workers=8) as ex:
+        results = list(ex.map(compile_one, jobs))
+    for cfg, k, rc, err in results:
+        backend = 'THREAD' if cfg == 'KT' else 'FIBER'
+        if k == 0:
+            if rc != 0:
+                ctx.broken('R-APIFORM: the control witness does not compile under %s: %s' % (backend, err[-600:]))
+            continue
+        key = 'R-APIFORM %s: %s' % (backend, WITNESSES[k])
+        ctx.instance(rule, key, dict(compiles=rc == 0))
+        if rc != 0:
+            first = next((l for l in err.splitlines() if 'error:' in l), err[-200:])
+            ctx.report(rule, key, 'witness/atomic_api.cpp (WITNESS=%d)' % k, 'yaclib_std::atomic<T> under the %s backend: '
+                       '%s is ill-formed (std::atomic<T> supports it): %s' % (backend, WITNESSES[k], first.strip()[:300]))
+
+
 def run(ctx):
-    fbs = ctx.facts(['KF', 'KT'], kinds=('probe',), only=r'p_atomic\.cpp$', tests=r'/test/')
+    # the witnesses first: an ill-formed operation also stops the probe from parsing, and must still be reported
+    ctx.guard(lambda: check_api_witnesses(ctx))
+    fbs = ctx.guard(lambda: ctx.facts(['KF', 'KT'], kinds=('probe',), only=r'p_atomic\.cpp$', tests=r'/test/'))
+    if fbs is None:
+        return
     rf = ctx.rule('R-OPTABLE.fiber', 'summary (returned, stored, expected) of each fiber atomic method body == '
                   'reference row of the std::atomic operation table', minimum=60)
     rw = ctx.rule('R-OPTABLE.wrapper', 'each wrapper method forwards once to the same-named Impl operation with its '
